@@ -161,7 +161,7 @@ var fields = []string{"@0.5", "@1", "@2", "@0", "@-1", "@nan", "@inf", "@", "@x"
 
 var titles = []string{"", "t", "a|b", "x\\ny"}
 var texts = []string{"", "x", "p|q", "l1\\nl2", "a\\nb\\nc", "\\nhead", "\\n"}
-var eattrs = []string{"d:12", "d:", "d:9223372036854775808", "h:host", "k:key", "p:low", "p:normal", "p:bad", "s:src", "t:error", "t:warning", "t:success", "t:info", "t:bad", "#t1,t2:v", "#", "x:unk"}
+var eattrs = []string{"d:12", "d:", "d:9223372036854775808", "d:21000000000000000000", "", "h:host", "k:key", "p:low", "p:normal", "p:bad", "s:src", "t:error", "t:warning", "t:success", "t:info", "t:bad", "#t1,t2:v", "#", "x:unk"}
 
 func seqs(menu []string, maxLen int, f func([]string)) {
 	var rec func(cur []string)
